@@ -59,6 +59,9 @@ type Contract struct {
 	// CallAsserts: "at call F@n assert [label] expr" — assertions over the function's own locals, checked right before
 	// the n-th (source order) call of F in this function; key "call:F@n"
 	CallAsserts map[string][]*Clause
+	// CallInvariants: "at call F@n invariant [label] expr" — invariant of the function value(s) the callee may run
+	// (`modifies effects(f)`): holds before the call, is preserved by one run of f, holds after the call
+	CallInvariants map[string][]*Clause
 	callSeen    map[string]bool
 	Props      map[string]bool // property ids mentioned by labels
 	Obj        *types.Func
@@ -299,7 +302,7 @@ func (db *SpecDB) parseSpecFile(file string, pkgPath string) {
 			db.Axioms = append(db.Axioms, &Axiom{strings.TrimSpace(rest[:i]), e, rest[i+1:], pkgPath, copyMap(imports)})
 			cur, curLoop = nil, nil
 		case "func", "functype":
-			c := &Contract{File: file, Line: en.ln, PkgPath: pkgPath, Imports: copyMap(imports), SigSrc: body, Loops: map[int]*LoopSpec{}, Props: map[string]bool{}, CallAsserts: map[string][]*Clause{}}
+			c := &Contract{File: file, Line: en.ln, PkgPath: pkgPath, Imports: copyMap(imports), SigSrc: body, Loops: map[int]*LoopSpec{}, Props: map[string]bool{}, CallAsserts: map[string][]*Clause{}, CallInvariants: map[string][]*Clause{}}
 			sigSrc := body
 			if w == "functype" {
 				// functype pkg.Name(params) results
@@ -336,16 +339,24 @@ func (db *SpecDB) parseSpecFile(file string, pkgPath string) {
 				continue
 			}
 			atSite := ""
+			atKind := ""
 			if w == "at" {
 				// at call F@n assert [label] expr
 				f := strings.Fields(rest)
-				if len(f) < 4 || f[0] != "call" || !strings.HasPrefix(f[2], "assert") {
-					errf(en.ln, "expected: at call <Callee>@<n> assert [label] <expr>")
+				if len(f) < 4 || f[0] != "call" || !(strings.HasPrefix(f[2], "assert") || strings.HasPrefix(f[2], "invariant")) {
+					errf(en.ln, "expected: at call <Callee>@<n> assert|invariant [label] <expr>")
 					continue
 				}
 				atSite = "call:" + f[1]
-				i := strings.Index(rest, "assert")
-				rest = strings.TrimSpace(rest[i+len("assert"):])
+				kw := "assert"
+				if strings.HasPrefix(f[2], "invariant") {
+					kw = "invariant"
+					atKind = "invariant"
+				} else {
+					atKind = "assert"
+				}
+				i := strings.Index(rest, kw)
+				rest = strings.TrimSpace(rest[i+len(kw):])
 			}
 			label := ""
 			if m := labelRe.FindStringSubmatch(rest); m != nil {
@@ -369,7 +380,11 @@ func (db *SpecDB) parseSpecFile(file string, pkgPath string) {
 					errf(en.ln, "%v", err)
 					continue
 				}
-				cur.CallAsserts[atSite] = append(cur.CallAsserts[atSite], &Clause{Kind: "assert", Label: label, Src: rest, E: e})
+				if atKind == "invariant" {
+					cur.CallInvariants[atSite] = append(cur.CallInvariants[atSite], &Clause{Kind: "invariant", Label: label, Src: rest, E: e})
+				} else {
+					cur.CallAsserts[atSite] = append(cur.CallAsserts[atSite], &Clause{Kind: "assert", Label: label, Src: rest, E: e})
+				}
 			case "pure":
 				cur.Pure = true
 			case "assumed":
